@@ -190,7 +190,6 @@ public:
 
         auto new_limit = _svc._stream_context.connack_property(prop::receive_maximum);
         _limit = new_limit.value_or(MAX_LIMIT);
-        _quota = _limit;
 
         auto write_queue = std::move(_write_queue);
         _svc._replies.resend_unanswered();
@@ -199,6 +198,10 @@ public:
             op.complete(asio::error::try_again);
 
         std::stable_sort(_write_queue.begin(), _write_queue.end());
+
+        // Operations cancelled individually complete above without being
+        // resent and hand back quota they never took on this connection.
+        _quota = _limit;
 
         _write_in_progress = false;
         do_write();
